@@ -88,6 +88,10 @@ func genSemver(r *rng.R) semverCase {
 	}
 	if r.P(1, 2) {
 		c.pre = semverIdents(r)
+		if r.P(1, 12) {
+			// long identifiers: the whole string passes 255 / 256 bytes
+			c.pre += "." + strings.Repeat("a", rng.Pick(r, []int{200, 240, 250, 300}))
+		}
 		s += "-" + c.pre
 	}
 	if r.P(1, 2) {
@@ -399,11 +403,21 @@ func c14(run *ev.Run, tier string) {
 	// the same split applies when the version reaches the configuration through
 	// the environment (version: ${VERSION}), the usual way in CI
 	var viaEnv int64
+	_ = os.Setenv("VERIF_ONLY_IN_PROCESS_REL", "77")
+	_ = os.Setenv("VERIF_ONLY_IN_PROCESS_PRE", "leaked.from.process")
+	_ = os.Setenv("VERIF_VERSION", "99.99.99-process")
+	defer func() {
+		for _, k := range []string{"VERIF_ONLY_IN_PROCESS_REL", "VERIF_ONLY_IN_PROCESS_PRE", "VERIF_VERSION"} {
+			_ = os.Unsetenv(k)
+		}
+	}()
 	for i := 0; i < nparse/4+8; i++ {
 		r := rng.New(uint64(run.Seed)).Fork(uint64(145000 + i))
 		c := genSemver(r)
 		schema := rng.Pick(r, []string{"", "semver", "none"})
-		doc := "name: x\narch: amd64\nversion: ${VERIF_VERSION}\n"
+		// (release and an explicit prerelease reference variables the mapping does
+		// not know while the process environment does: they stay empty)
+		doc := "name: x\narch: amd64\nversion: ${VERIF_VERSION}\nrelease: ${VERIF_ONLY_IN_PROCESS_REL}\nprerelease: ${VERIF_ONLY_IN_PROCESS_PRE}\n"
 		if schema != "" {
 			doc += "version_schema: " + schema + "\n"
 		}
@@ -430,6 +444,10 @@ func c14(run *ev.Run, tier string) {
 					run.Inconclusive(err.Error())
 					continue
 				}
+			}
+			if info.Release == "77" || strings.Contains(info.Prerelease, "leaked") {
+				run.Violate("C14/version-from-environment/process-environment-used-instead-of-mapping", map[string]any{"release": info.Release, "prerelease": info.Prerelease, "settings_for": f})
+				break
 			}
 			if info.Version != wv || info.Prerelease != wp || info.VersionMetadata != wm {
 				run.Violate("C14/version-from-environment/not-split-like-a-literal", map[string]any{"input": c.str, "schema": schema, "settings_for": f,
@@ -630,6 +648,29 @@ func c14(run *ev.Run, tier string) {
 		}
 	}
 	run.Set("archlinux_pkgver_compositions_checked", archChecked)
+	// a custom ipk field named like the version field does not add a second,
+	// conflicting version to the control file
+	for _, key := range []string{"Version", "version", "VERSION"} {
+		s := &gen.Spec{Name: "ordpkg", Arch: "amd64", Version: "1.2.3", Prerelease: "rc1", Maintainer: "V <v@example.com>", Description: "d", MTime: 1500000000}
+		s.Contents = []*gen.Content{{Src: payload, Dst: "/opt/ordpkg/p.txt"}}
+		s.IPK.Fields.Set(key, "9.9.9")
+		run.Case("ipk-custom-field-named-version|"+key, true)
+		res := buildYAML(s.YAML(), "ipk")
+		if res.Err != nil || res.Panic != "" {
+			continue // refusing the field is loud
+		}
+		p := dec.Decode("ipk", res.Bytes, false)
+		n := 0
+		for _, fl := range p.Meta {
+			if strings.EqualFold(fl.Name, "Version") {
+				n++
+			}
+		}
+		got, _ := p.MetaGet("Version")
+		if n != 1 || got != "1.2.3~rc1" {
+			run.Violate("C14/ipk/version-component-lost-or-duplicated/custom-field-named-version", map[string]any{"custom_field": key, "version_lines": n, "first_version": got, "want": "1.2.3~rc1"})
+		}
+	}
 	run.Set("version_pairs_ordered", ordered)
 	run.Set("dpkg_compare_runs", dpkgRuns)
 	run.Set("external_oracles", map[string]bool{"dpkg --compare-versions": haveDpkg})
